@@ -99,8 +99,14 @@ PROPS = {
     ),
     "C15": dict(
         proof_modules=["KsVerif.Proofs.C15", "KsVerif.Proofs.C15Spec"],
-        families=["kfl.redact", "kfl.redactf"],
-        rule="kfl.redactf: `F and redact(P)` for 17 filter shapes F (plain, bracket-key, index + field - after which the grammar "
+        families=["kfl.redact", "kfl.redactf", "kfl.redactxml"],
+        rule="kfl.redactxml: XML documents (key paths, an indexed path, attributes, a namespaced envelope; element and attribute text "
+             "with entities, CDATA, character references, quotes; with and without a declaration on the same line, on its own line, "
+             "with CR LF) held plainly and base64-wrapped, redacted through an xml() hop: the document as the XML reader reads it "
+             "afterwards must be the one it read before with the marker at the path and nothing else changed, the declaration kept, "
+             "the target's text gone, and a path that is not in the document changes nothing (metamorphic: the reader is mxj, the "
+             "judge computes the expected tree); "
+             "kfl.redactf: `F and redact(P)` for 17 filter shapes F (plain, bracket-key, index + field - after which the grammar "
              "nests the rest of the query -, negated, parenthesised, conjunctions) on the records and path sets of kfl.redact: where F "
              "holds the returned record must be the one redact(P) alone returns; "
              "kfl.redact: records with unique sentinel strings at every leaf (objects, arrays, nested objects, JSON "
@@ -110,7 +116,8 @@ PROPS = {
              "looking through nested documents, with the spec's structural rewrite and with the model; "
              "non-trivial = the spec changes the record",
         trusted_base=KFL_TB + ["Kfl/RedactSpec.lean: the structural rewrite the property statement describes"] + LIB,
-        assumptions=["XML hops (mxj) are outside the model and the spec of this check"],
+        assumptions=["XML hops (mxj) are outside the Lean model and RedactSpec: kfl.redactxml judges them against the document as "
+                     "mxj itself reads it before and after"],
     ),
     "C18": dict(
         proof_modules=["KsVerif.Proofs.C18"],
